@@ -86,7 +86,16 @@ def operand_evaluation_rule(chk, P):
             if any(d[0] == "variant" and d[2] == ("Break",) for d in pi.decisions()):
                 continue
             evals = tuple(canon(a[0]) for bb, nm, a in pi.calls() if nm == "expr::Expr::eval")
-            rows.setdefault(v[0], set()).add((evals, canon(pi.ret())))
+            rc = canon(pi.ret())
+            m_ = re.fullmatch(r"Result::map\((Expr::eval\(.*\)), closure\((\{closure#\d+\})\)\)", rc)
+            if m_:
+                # `e.eval(ctx).map(|v| f(v))` is `Ok(f(e.eval(ctx)?))`: the closure's value with its parameter read as the Ok payload
+                cl_ = P.body(ev.name + "::" + m_.group(2))
+                if cl_ is not None:
+                    cr = set(canon(P.resolve(cl_, P.sl(cl_).ret(rb))) for rb in P.cfg(cl_).return_blocks())
+                    if len(cr) == 1:
+                        rc = "Result::Ok{0: %s}" % list(cr)[0].replace("elem(%s)" % m_.group(1), "try(%s)" % m_.group(1))
+            rows.setdefault(v[0], set()).add((evals, rc))
         want = {("Number",): {((), "Result::Ok{0: (self as Number).0}")},
                 ("UnaryOp",): {((("(self as UnaryOp).expr"),), "Result::Ok{0: UnaryOp::eval((self as UnaryOp).op, try(Expr::eval((self as UnaryOp).expr, ctx)))}")},
                 ("BinOp",): {(("(self as BinOp).left", "(self as BinOp).right"), "BinOp::eval((self as BinOp).op, try(Expr::eval((self as BinOp).left, ctx)), try(Expr::eval((self as BinOp).right, ctx)))")}}
